@@ -54,7 +54,7 @@ def run(prog, rep):
             sem.check_shape(rep, "C01-R1", en, shape, alts, "pattern-" + key, detail=key)
     rep.floor("C01-R1", 140)
     # R2: recursive calls
-    recs = [s for s in en.summ.sites if s.kind == "call" and s.is_call_to("eval_node")]
+    recs = [s for s in en.summ.all_sites() if s.kind == "call" and s.is_call_to("eval_node")]      # (those made by inlined helpers included)
     for s in recs:
         a = s.args
         good = len(a) >= 5 and a[3] == ("param", en.params[3]) and terms.mentions_param(a[2], en.params[2]) \
